@@ -9,6 +9,23 @@
     - Default is satisfiable: a defaultable type only has fields whose types bottom out, through
       arrays, in items that are themselves defaultable ([C13_default_satisfiable]);
     - the struct's alignment attribute is one rustc accepts: a power of two ([C13_align_accepted]).
+    ON THE EMITTED TEXT, WHOLE BUILD (EmitPaths.v, PathsClosed.v, PathsWhole.v; at the end of this
+    file): "every path mentioned resolves to an emitted item, a built-in or a declared extern type"
+    - [C13_type_paths_read]: a reader extracts from printed type tokens exactly the paths the type
+      mentions ([crate :: a :: b :: T] runs and bare names; [:: std :: ffi :: c_void] skipped);
+    - [C13_registry_closed]: the final registry of an accepted build is closed under "mentions" (a new
+      invariant carried through every attempt); [C13_path_class]: every entry is a built-in, a
+      declared extern type of an input module, or a declared item / generated vftable struct;
+    - [C13_emitted_struct_fields_resolve], [C13_emitted_enum_repr_resolves],
+      [C13_emitted_impl_fns_resolve], [C13_emitted_extern_values_resolve]: every path read from the
+      field types of EVERY struct item of EVERY written file (vftable structs' fn-pointer types
+      included), from every enum's repr, from the signature of every function of every inherent
+      impl, and from every extern accessor is [path_ok]: a Rust built-in, a declared extern type, or
+      the name of a struct/enum item that is in the written file of its parent module;
+    - [C13_emitted_size_check_holds]: the emitted size check transmutes between equal sizes.
+    Not covered: positions that are not a printed type (Self, size-check fns), fn-pointer types
+    repeated inside wrapper bodies, opaque prologue/epilogue text, that extern types are defined on
+    the Rust side, items of a root module (no file).
     What is NOT proved: that rustc accepts the crate as a whole.  That is decided on every run by the
     type-check ORACLE (rustc itself, on the implementation's emitted files) -- the monitor of this
     property -- and the classes in which it fails on the unchanged tree are the listed known findings
@@ -17,6 +34,8 @@
 From Coq Require Import List NArith ZArith Bool String.
 From PyxisModel Require Import Base Grammar SemTypes Registry Sem SemLemmas RustLayout LayoutLemmas ScopeLemmas.
 Import ListNotations.
+
+From PyxisModel Require EmitFnReaders EmitFnShape FilesWhole FilesRead EmitPaths PathsClosed PathsWhole.
 
 Theorem C13_paths_resolve_partial : forall R scope, reg_has R ["u8"%string] = true -> forall t t',
   resolve_gtype R scope t = Some t' -> Forall (fun p => reg_has R p = true) (stype_paths t').
@@ -92,3 +111,126 @@ Proof.
   repeat split; eauto.
 Qed.
 Print Assumptions C13_emitted_size_check_holds.
+
+Theorem C13_type_paths_read :
+  forall t : stype,
+    Emit.stype_ok t = true -> EmitPaths.type_paths (Emit.type_tokens t) = EmitPaths.printed_paths t.
+Proof. exact EmitPaths.type_paths_type_tokens. Qed.
+Print Assumptions C13_type_paths_read.
+
+Theorem C13_registry_closed :
+  forall (order : schedule) (ptr : N) (mods : list (path * gmodule)) (st0 st : sstate),
+    WholeBuild.input_state ptr mods = Ok st0 ->
+    pyxis_resolve order ptr mods = BOk st ->
+    PathsClosed.has (st_reg st) ["u8"%string] /\
+    (forall (p : path) (it : item),
+     reg_get (st_reg st) p = Some it -> PathsClosed.item_closed (st_reg st) it) /\
+    (forall (k : path) (m : smodule) (ev : sextern),
+     In (k, m) (st_modules st) -> In ev (m_extern_values m) -> PathsClosed.ev_closed (st_reg st) ev).
+Proof. exact PathsClosed.final_closed. Qed.
+Print Assumptions C13_registry_closed.
+
+Theorem C13_path_class :
+  forall (order : schedule) (ptr : N) (mods : list (path * gmodule)) (st0 st : sstate),
+    WholeBuild.input_state ptr mods = Ok st0 ->
+    NoDup (map fst mods) ->
+    WholeBuild.collision_free (st_reg st0) ->
+    EmitFinal.keeps_work order ->
+    pyxis_resolve order ptr mods = BOk st ->
+    forall (p : path) (it : item), reg_get (st_reg st) p = Some it -> PathsWhole.path_class mods p it.
+Proof. exact PathsWhole.final_path_class. Qed.
+Print Assumptions C13_path_class.
+
+Theorem C13_emitted_struct_fields_resolve :
+  forall (order : schedule) (ptr : N) (mods : list (path * gmodule)) (st0 st : sstate),
+    WholeBuild.input_state ptr mods = Ok st0 ->
+    NoDup (map fst mods) ->
+    WholeBuild.collision_free (st_reg st0) ->
+    EmitFinal.keeps_work order ->
+    pyxis_resolve order ptr mods = BOk st ->
+    forall files : list (string * Sexp.sexp),
+    Emit.write_all st = Ok files ->
+    forall (name : string) (f : Sexp.sexp) (items : list Sexp.sexp) (s : Sexp.sexp)
+      (efs : list EmitReaders.efield) (ef : EmitReaders.efield) (p : path),
+    In (name, f) files ->
+    EmitReaders.file_items f = Some items ->
+    In s items ->
+    EmitReaders.item_kind s = Some "struct"%string ->
+    EmitReaders.struct_fields s = Some efs ->
+    In ef efs -> In p (EmitPaths.type_paths (EmitReaders.ef_ty ef)) -> PathsWhole.path_ok mods files p.
+Proof. exact PathsWhole.C13_struct_field_paths. Qed.
+Print Assumptions C13_emitted_struct_fields_resolve.
+
+Theorem C13_emitted_enum_repr_resolves :
+  forall (order : schedule) (ptr : N) (mods : list (path * gmodule)) (st0 st : sstate),
+    WholeBuild.input_state ptr mods = Ok st0 ->
+    NoDup (map fst mods) ->
+    WholeBuild.collision_free (st_reg st0) ->
+    EmitFinal.keeps_work order ->
+    pyxis_resolve order ptr mods = BOk st ->
+    forall files : list (string * Sexp.sexp),
+    Emit.write_all st = Ok files ->
+    forall (name : string) (f : Sexp.sexp) (items : list Sexp.sexp) (e : Sexp.sexp)
+      (toks : list Sexp.sexp) (p : path),
+    In (name, f) files ->
+    EmitReaders.file_items f = Some items ->
+    In e items ->
+    EmitReaders.item_kind e = Some "enum"%string ->
+    EmitReaders.enum_repr e = Some toks ->
+    In p (EmitPaths.type_paths toks) -> PathsWhole.path_ok mods files p.
+Proof. exact PathsWhole.C13_enum_repr_paths. Qed.
+Print Assumptions C13_emitted_enum_repr_resolves.
+
+Theorem C13_emitted_impl_fns_resolve :
+  forall (order : schedule) (ptr : N) (mods : list (path * gmodule)) (st0 st : sstate),
+    WholeBuild.input_state ptr mods = Ok st0 ->
+    NoDup (map fst mods) ->
+    WholeBuild.collision_free (st_reg st0) ->
+    EmitFinal.keeps_work order ->
+    pyxis_resolve order ptr mods = BOk st ->
+    forall files : list (string * Sexp.sexp),
+    Emit.write_all st = Ok files ->
+    forall (name : string) (f : Sexp.sexp) (items : list Sexp.sexp) (s : Sexp.sexp),
+    In (name, f) files ->
+    EmitReaders.file_items f = Some items ->
+    In s items ->
+    EmitReaders.item_kind s = Some "struct"%string ->
+    exists (n : string) (checks sing : list Sexp.sexp) (im : Sexp.sexp) (conv fns : list Sexp.sexp),
+      EmitReaders.struct_name s = Some n /\
+      incl (s :: checks ++ sing ++ im :: conv) items /\
+      EmitReaders.item_kind im = Some "impl"%string /\
+      EmitFnReaders.inherent_impl im = Some (n, fns) /\
+      (forall (e : Sexp.sexp) (toks : list Sexp.sexp) (p : path),
+       In e fns ->
+       In toks (PathsWhole.fn_sig_types e) ->
+       In p (EmitPaths.type_paths toks) -> PathsWhole.path_ok mods files p).
+Proof. exact PathsWhole.C13_impl_fn_paths. Qed.
+Print Assumptions C13_emitted_impl_fns_resolve.
+
+Theorem C13_emitted_extern_values_resolve :
+  forall (order : schedule) (ptr : N) (mods : list (path * gmodule)) (st0 st : sstate),
+    WholeBuild.input_state ptr mods = Ok st0 ->
+    NoDup (map fst mods) ->
+    WholeBuild.collision_free (st_reg st0) ->
+    EmitFinal.keeps_work order ->
+    pyxis_resolve order ptr mods = BOk st ->
+    forall files : list (string * Sexp.sexp),
+    Emit.write_all st = Ok files ->
+    forall (name : string) (f : Sexp.sexp),
+    In (name, f) files ->
+    exists (k : path) (m : smodule),
+      In (k, m) (st_modules st) /\
+      name = Emit.out_path k /\
+      (forall ev : sextern,
+       In ev (m_extern_values m) ->
+       exists (items : list Sexp.sexp) (e : Sexp.sexp) (t : stype),
+         EmitReaders.file_items f = Some items /\
+         In e items /\
+         ev_type ev = Some t /\
+         EmitFnShape.extern_shape ev t e /\
+         (forall (toks : list Sexp.sexp) (p : path),
+          EmitFnShape.fn_ret_static_mut e = Some toks \/
+          (exists a : N, EmitFnShape.fn_extern_target e = Some (a, toks)) ->
+          In p (EmitPaths.type_paths toks) -> PathsWhole.path_ok mods files p)).
+Proof. exact PathsWhole.C13_written_extern_value_paths. Qed.
+Print Assumptions C13_emitted_extern_values_resolve.
